@@ -557,6 +557,9 @@ C01.defined: wherever constraints_and_type_name renders a component with the `<P
     instance_of(m, ctx, "C01.instanceof");
     collisions(m, ctx, "C01.collide");
     list_values(m, ctx, "C01.listvalue");
+    // an hstring under an OCTET STRING reached through a type reference stays a list of bits: E0277 in the bindings (= C07.hex)
+    crate::rules::c07::octets_through_reference(m, ctx, "C01.hex");
+    crate::rules::c07::guard_contradictions(m, ctx, "C01.guard");
     // two enumerals with one number are two variants with one discriminant (E0081): the numbering analysis lives with C14
     borrow(ctx, "C14", "C14.num", "C01.discr", &mut |sub| crate::rules::c14::run(m, sub));
     // names that are referred to are the names that are generated (shared with C02.defname)
